@@ -1,13 +1,19 @@
 PROP = dict(
-    modules=["Shangrla.Props.C09"],
+    modules=["Shangrla.Props.C09", "Shangrla.Props.RiskLimit"],
     theorems=["Shangrla.C09.pvalues_are_tests", "Shangrla.C09.pvalues_are_tests_pos", "Shangrla.C09.contest_max",
               "Shangrla.C09.audit_max", "Shangrla.C09.audit_max_nan_iff", "Shangrla.C09.audit_max_largest",
               "Shangrla.C09.proved_sticky", "Shangrla.C09.proved_of_le", "Shangrla.C09.dicts_mirror",
               "Shangrla.C09.complete_iff", "Shangrla.C09.complete_iff_nonneg", "Shangrla.C09.complete_iff_checked",
               "Shangrla.C09.complete_after_set", "Shangrla.C09.complete_all_proved", "Shangrla.C09.nan_incomplete",
               "Shangrla.C09.reset_restores", "Shangrla.C09.reset_dicts", "Shangrla.C09.reset_incomplete",
-              "Shangrla.C09.params_checked", "Shangrla.C09.set_checked_ok"],
-    groups={"status": (1200, 12000)},
+              "Shangrla.C09.params_checked", "Shangrla.C09.set_checked_ok",
+              # C09 composed with C01: the probability that the audit is EVER reported complete while some assertion
+              # is false is at most that contest's risk limit (draw tree over the cards, any number of looks)
+              "Shangrla.RiskLimit.complete_forces", "Shangrla.RiskLimit.hitG_map", "Shangrla.RiskLimit.hitG_mono",
+              "Shangrla.RiskLimit.audit_risk_limit", "Shangrla.RiskLimit.audit_risk_limit_any",
+              "Shangrla.RiskLimit.audit_risk_limit_alpha_fixed", "Shangrla.RiskLimit.audit_risk_limit_run",
+              "Shangrla.RiskLimit.example_exact"],
+    groups={"status": (1200, 12000), "auditrisk": (60, 600)},
     design_ref="DESIGN.md section 5, C09",
     assumptions=["the statistical test and the data extraction (asn.test.test, Assertion.mvrs_to_data) are parameters of "
                  "the model: every theorem holds for every function from (contest, assertion) to (p, history); "
